@@ -14,12 +14,13 @@
 (*                                                                         *)
 (* Secret values come in forms: "obj" (a JSON object), "num" (a JSON       *)
 (* number), "junk" (neither JSON nor acceptable to the binary unmarshaler  *)
-(* of the test types) and "missing" (the service has no such secret).      *)
+(* of the test types), "trail" (a JSON value followed by more data: not a  *)
+(* JSON document) and "missing" (the service has no such secret).          *)
 (***************************************************************************)
 EXTENDS Integers, Sequences, FiniteSets, TLC
 
 Kinds == {"string", "bytes", "secret", "binval", "binptr", "jsonstruct", "jsonint", "float", "untagged", "emptyname", "emptyjson", "embedded"}
-Forms == {"obj", "num", "junk", "missing"}
+Forms == {"obj", "num", "junk", "missing", "trail"}      \* "trail": a complete JSON value followed by more data
 
 Tagged(k) == k # "untagged"
 Offending(k) == k \in {"float", "emptyname", "emptyjson"}      \* rejected up front: unsupported type, empty secret name
